@@ -14,7 +14,9 @@ RULE = ("stream rep-direct: seeded random repetition objects of all five sequenc
         "non-trivial = count>=2 at some point and the child expression is not a constant; distinct by canonical JSON hash. "
         "stream hier-repeat: repetition-heavy random hierarchies (nested repetitions, counts and sequence parameters linked from "
         "parents under shared names) compiled by the real code and compared at every node with the compile model (tie) and the "
-        "bottom-up denotation, whose repetition clause is the unrolled sum (spec)")
+        "bottom-up denotation, whose repetition clause is the unrolled sum (spec); stream eval-repeat: repeated hierarchies compiled with "
+        "symbolic counts and sequence parameters, then every input assigned by the real evaluate() (counts 0..5, zero included) "
+        "and compared with the compiled tree at the assigned point")
 TRUSTED_BASE = ["GenRepetitions.v is regenerated from src/bartiq/repetitions.py on every run; python operators on sympy objects are read as +,-,*,/,** (translator assumption)"]
 ASSUMPTIONS = ["power with a natural-number exponent is repeated multiplication (Qpower)", "sympy arithmetic preserves value (exercised by the stream, not proved)"]
 
@@ -157,10 +159,19 @@ def streams(tier, seed):
         c = c01.gen_cases(rng, 1, 3 if tier == "quick" else 4, p_rep=0.6)[0]
         if has_rep(c["routine"]):
             hier.append(c)
-    return [direct, hier_repeat_stream(lib.load_corpus("C07", "hier-repeat") + hier)]
+    # ... and with the counts and sequence parameters left symbolic by compilation and supplied by the real evaluate():
+    # every count in 0..5 (zero included: the empty repetition), every parameter assigned, compared with the compiled tree
+    # at the assigned point
+    from props import c05
+    ev = c05.build_cases(rng, 40 if tier == "quick" else 800, 3, p_rep=0.7, repeated_only=True)
+    return [direct, hier_repeat_stream(lib.load_corpus("C07", "hier-repeat") + hier),
+            c05.mk_stream(lib.load_corpus("C07", "eval-repeat") + ev, name="eval-repeat")]
 
 
 def replay_streams(payload):
+    if payload.get("stream") == "eval-repeat":
+        from props import c05
+        return [c05.mk_stream([payload["case"]], name="eval-repeat")]
     if payload.get("stream") == "hier-repeat":
         return [hier_repeat_stream([payload["case"]])]
     return [{"name": "rep-direct", "impl_stream": "rep-direct", "cases": [payload["case"]], "emit": emit, "shard_size": 60,
